@@ -20,6 +20,7 @@ structure GInv (σ : Schema) : Prop where
   top : σ.topNames.Nodup
   structs : ∀ s ∈ σ.structs, s.Ok
   raw : ∀ ty ∈ σ.allTypes, ty.inner.Raw
+  enums : σ.EnumMembersUnique
 
 theorem not_mem_topNames {σ : Schema} {n : Name} (h : σ.isTopUsed n = false) : n ∉ σ.topNames := by
   simp only [Schema.isTopUsed, Schema.hasStruct, Schema.hasMultimap, Schema.hasEnum,
@@ -102,6 +103,38 @@ theorem parseStructFields_inv : ∀ (f : Nat) (fs : List Field) (ts : List Token
     · cases h
       exact ⟨hn, hr⟩
 
+/-- the enum member loop keeps member names unique (the duplicate check of `parseEnumField`). -/
+theorem parseEnumFields_inv : ∀ (f : Nat) (fs : List EnumField) (ts : List Token)
+    (fs' : List EnumField) (ts' : List Token), parseEnumFields f fs ts = .ok fs' ts' →
+    (fs.map (·.name)).Nodup → (fs'.map (·.name)).Nodup
+  | 0, fs, ts, fs', ts', h, _ => by simp [parseEnumFields] at h
+  | f + 1, fs, ts, fs', ts', h, hn => by
+    unfold parseEnumFields at h
+    split at h
+    · rename_i fname _
+      split at h
+      · cases h
+      · rename_i hdup
+        split at h
+        · cases h
+        · split at h
+          · rename_i v _
+            refine parseEnumFields_inv f _ _ _ _ h ?_
+            simp only [List.map_append, List.map_cons, List.map_nil]
+            rw [List.nodup_append]
+            refine ⟨hn, by simp, ?_⟩
+            intro a ha b hb
+            simp at hb
+            subst hb
+            simp only [Bool.not_eq_true, List.any_eq_false, decide_eq_true_eq] at hdup
+            intro hab
+            subst hab
+            simp only [List.mem_map] at ha
+            obtain ⟨x, hx, hxa⟩ := ha
+            exact hdup x hx hxa
+          · cases h
+    · cases h
+      exact hn
 
 theorem mem_allTypes {σ : Schema} {ty : FType} :
     ty ∈ σ.allTypes ↔ (∃ s ∈ σ.structs, ty ∈ s.types) ∨ (∃ m ∈ σ.multimaps, ty ∈ m.types) := by
@@ -117,7 +150,7 @@ theorem mem_allTypes {σ : Schema} {ty : FType} :
 theorem GInv.addStruct {σ : Schema} (h : GInv σ) (s : Struct) (hn : s.name ∉ σ.topNames)
     (hs : s.Ok) (hr : ∀ ty ∈ s.types, ty.inner.Raw) :
     GInv { σ with structs := σ.structs ++ [s] } := by
-  refine ⟨?_, ?_, ?_⟩
+  refine ⟨?_, ?_, ?_, h.enums⟩
   · have hp : (Schema.topNames { σ with structs := σ.structs ++ [s] }).Perm (s.name :: σ.topNames) := by
       simp only [Schema.topNames, List.map_append, List.map_cons, List.map_nil, List.append_assoc,
         List.singleton_append]
@@ -141,7 +174,7 @@ theorem GInv.addStruct {σ : Schema} (h : GInv σ) (s : Struct) (hn : s.name ∉
 theorem GInv.addMultimap {σ : Schema} (h : GInv σ) (m : Multimap) (hn : m.name ∉ σ.topNames)
     (hr : ∀ ty ∈ m.types, ty.inner.Raw) :
     GInv { σ with multimaps := σ.multimaps ++ [m] } := by
-  refine ⟨?_, h.structs, ?_⟩
+  refine ⟨?_, h.structs, ?_, h.enums⟩
   · have hp : (Schema.topNames { σ with multimaps := σ.multimaps ++ [m] }).Perm (m.name :: σ.topNames) := by
       simp only [Schema.topNames, List.map_append, List.map_cons, List.map_nil, List.append_assoc,
         List.singleton_append]
@@ -159,9 +192,10 @@ theorem GInv.addMultimap {σ : Schema} (h : GInv σ) (m : Multimap) (hn : m.name
       · exact h.raw ty (mem_allTypes.2 (Or.inr ⟨x, hx, hty⟩))
       · subst hx; exact hr ty hty
 
-theorem GInv.addEnum {σ : Schema} (h : GInv σ) (e : Enum) (hn : e.name ∉ σ.topNames) :
+theorem GInv.addEnum {σ : Schema} (h : GInv σ) (e : Enum) (hn : e.name ∉ σ.topNames)
+    (he : (e.fields.map (·.name)).Nodup) :
     GInv { σ with enums := σ.enums ++ [e] } := by
-  refine ⟨?_, h.structs, ?_⟩
+  refine ⟨?_, h.structs, ?_, ?_⟩
   · have hp : (Schema.topNames { σ with enums := σ.enums ++ [e] }).Perm (e.name :: σ.topNames) := by
       simp only [Schema.topNames, List.map_append, List.map_cons, List.map_nil]
       have := @List.perm_middle _ e.name (σ.structs.map (·.name) ++ σ.multimaps.map (·.name) ++ σ.enums.map (·.name)) []
@@ -171,6 +205,11 @@ theorem GInv.addEnum {σ : Schema} (h : GInv σ) (e : Enum) (hn : e.name ∉ σ.
   · intro ty hty
     rw [mem_allTypes] at hty
     exact h.raw ty (mem_allTypes.2 hty)
+  · intro x hx
+    simp only [List.mem_append, List.mem_singleton] at hx
+    rcases hx with hx | hx
+    · exact h.enums x hx
+    · subst hx; exact he
 
 theorem parseStruct_inv {σ σ' : Schema} {ts ts' : List Token} {o : Bool} (hg : GInv σ)
     (h : parseStruct o σ ts = .ok σ' ts') : GInv σ' := by
@@ -214,13 +253,22 @@ theorem parseEnum_inv {σ σ' : Schema} {ts ts' : List Token} (hg : GInv σ)
     (h : parseEnum σ ts = .ok σ' ts') : GInv σ' := by
   unfold parseEnum at h
   simp only at h
-  repeat' (split at h)
-  all_goals first
-    | (cases h; done)
-    | skip
-  rename_i _ ename _ hfresh _ _ _ _ _ _ _ _ _ _ _ _
-  cases h
-  exact hg.addEnum _ (not_mem_topNames (by simpa using hfresh))
+  split at h
+  · rename_i ename _
+    split at h
+    · cases h
+    · rename_i hfresh
+      split at h
+      · cases h
+      · split at h
+        · cases h
+        · rename_i fs ts2 hfs
+          split at h
+          · cases h
+          · cases h
+            exact hg.addEnum _ (not_mem_topNames (by simpa using hfresh))
+              (parseEnumFields_inv _ _ _ _ _ hfs (by simp))
+  · cases h
 
 theorem parseDefs_inv : ∀ (f : Nat) (σ σ' : Schema) (ts ts' : List Token), GInv σ →
     parseDefs f σ ts = .ok σ' ts' → GInv σ'
@@ -247,7 +295,8 @@ theorem grammar_inv {σ : Schema} {ts ts' : List Token} (h : grammar ts = .ok σ
   split at h
   · cases h
   · refine parseDefs_inv _ _ _ _ _ ?_ h
-    refine ⟨by simp [Schema.topNames], by simp, by simp [Schema.allTypes]⟩
+    refine ⟨by simp [Schema.topNames], by simp, by simp [Schema.allTypes],
+      by simp [Schema.EnumMembersUnique]⟩
 
 
 /-! ### ResolveRefs -/
@@ -432,6 +481,7 @@ structure RInv (σ : Schema) : Prop where
   top : σ.topNames.Nodup
   structs : ∀ s ∈ σ.structs, s.Ok
   res : ∀ ty ∈ σ.allTypes, ty.inner.Res3 σ
+  enums : σ.EnumMembersUnique
 
 theorem resolveRefs_inv {σ σ1 : Schema} (hg : GInv σ) (h : resolveRefs σ = .ok σ1) : RInv σ1 := by
   unfold resolveRefs at h
@@ -447,7 +497,7 @@ theorem resolveRefs_inv {σ σ1 : Schema} (hg : GInv σ) (h : resolveRefs σ = .
       have h2 := resolveMultimaps_inv hg.top σ.multimaps ms
         (fun m hm ty hty => hg.raw ty (mem_allTypes.2 (Or.inr ⟨m, hm, hty⟩))) hms
       have hsame : SameNames σ { σ with structs := ss, multimaps := ms } := ⟨h1.1, h2.1, rfl⟩
-      refine ⟨?_, ?_, ?_⟩
+      refine ⟨?_, ?_, ?_, hg.enums⟩
       · rw [hsame.topNames]; exact hg.top
       · intro s' hs'
         obtain ⟨s, hs, hroot, hnames⟩ := h1.2.1 s' hs'
@@ -563,7 +613,7 @@ theorem applyMarks_types {σ : Schema} {m : Marks} {ty' : FType}
 
 theorem applyMarks_inv {σ : Schema} (m : Marks) (h : RInv σ) : RInv (applyMarks σ m) := by
   have hsame := applyMarks_sameNames σ m
-  refine ⟨by rw [hsame.topNames]; exact h.top, ?_, ?_⟩
+  refine ⟨by rw [hsame.topNames]; exact h.top, ?_, ?_, h.enums⟩
   · intro s' hs'
     rw [applyMarks_eq] at hs'
     simp only [List.mem_map] at hs'
@@ -813,6 +863,7 @@ structure WF0 (σ : Schema) : Prop where
   fields_unique : ∀ s ∈ σ.structs, (s.fields.map (·.name)).Nodup
   root_nonempty : ∀ s ∈ σ.structs, s.isRoot = true → s.fields ≠ []
   refs : ∀ ty ∈ σ.allTypes, ty.inner.Res3 σ
+  enum_members_unique : σ.EnumMembersUnique
 
 theorem res3_lookup {σ : Schema} {b : BaseType} (h : b.Res3 σ) : Lookup σ b := by
   refine ⟨fun hs => ?_, fun hs hm => ?_⟩
@@ -846,7 +897,11 @@ theorem pruneUnused_wf0 {σ σ3 : Schema} (hi : RInv σ) (h : pruneUnused σ = s
       have := hi.top
       simp only [Schema.topNames, List.nodup_append] at this
       exact this.1.2.1
-    refine ⟨htop3, ?_, ?_, ?_⟩
+    refine ⟨htop3, ?_, ?_, ?_, ?_⟩
+    rotate_right
+    · intro e he
+      simp only [List.mem_filter] at he
+      exact hi.enums e he.1
     · intro s hs
       simp only [List.mem_filter] at hs
       exact (hi.structs s hs.1).1
